@@ -19,6 +19,7 @@ ACO = "berty.tech/go-orbit-db/accesscontroller/orbitdb"
 
 ODB = "berty.tech/go-orbit-db/baseorbitdb"
 ADDR = "berty.tech/go-orbit-db/address"
+ROOT = "berty.tech/go-orbit-db"
 
 CHECKS = {
     "C13": {
@@ -91,6 +92,9 @@ CHECKS = {
             "timeout": {"quick": "10m", "thorough": "60m"},
             "covers": {"VerifC14Injective": ["same-inputs", "different-inputs"]},
         }, {
+            "pkg": ROOT, "funcs": ["VerifC14Helpers"],
+            "covers": {"VerifC14Helpers": ["created", "reopened"]},
+        }, {
             "cross_solvers": ["cvc5", "z3-new"], "pkg": ADDR, "funcs": ["VerifC14AddressRoundTrip"],
             "params": {"quick": {"L": 5}, "thorough": {"L": 7}},
             "max_paths": {"quick": 60000, "thorough": 600000},
@@ -100,6 +104,7 @@ CHECKS = {
             "real orbitDB instances (newOrbitDB, DetermineAddress, Create, Open, createStore, haveLocalData, addManifestToCache), the real manifest code, acutils, the real ipfs access controller Save/Load, address.Parse/IsValid, the real path.Join/Clean and the real cache manager (cacheleveldown) over a disk model",
             "name = symbolic string of length 0..L over ALL byte values; type in {eventlog, keyvalue, docstore}; explicit write list of 1..3 ids (symbolic) or none; two peers with different identities, peer ids and directories; plus names of the shape <3 symbolic bytes> + <root of another database> + '/v'",
             "CIDs are perfect hashes of an idealised CBOR encoding whose field lists are recorded from the atlases registered by the real source; cid.Decode accepts exactly the stand-in tokens",
+            "public package (VerifC14Helpers, package orbitdb): orbitdb.NewOrbitDB (default store types and controllers registered) and the typed helpers Log / KeyValue / Docs: type of the created store, refusal to open the address through a helper of another type, reopen through the right helper on a new instance with the data",
             "address round trip (VerifC14AddressRoundTrip, package address): name = symbolic string of 0..L bytes over ALL byte values; the address is built as DetermineAddress builds it (Parse of path.Join(\"/orbitdb\", root, name), kept only when rooted at the manifest); its printed form must be valid, parse back to the same root and path, and print again identically",
         ],
         "outside": ["real CID / multibase syntax", "orbitdb-type access controllers in the reopen check", "unicode normalisation (none is performed; bytes are opaque)", "names longer than L"],
@@ -260,6 +265,15 @@ CHECKS = {
             "covers": {"VerifC16LegacyStall": ["drained"]},
             "validate": False,
         }, {
+            "pkg": EV, "funcs": ["VerifC16LegacyCancel"],
+            "params": {"quick": {"N": 18, "P": 0, "KS": 3}, "thorough": {"N": 18, "P": 1, "KS": 3}},
+            "max_paths": {"quick": 60000, "thorough": 600000},
+            "covers": {"VerifC16LegacyCancel": ["drained"]},
+        }, {
+            "pkg": EV, "funcs": ["VerifC16LegacyMulti"],
+            "params": {"quick": {"N": 20}, "thorough": {"N": 60}},
+            "covers": {"VerifC16LegacyMulti": ["drained", "unsubscribed"]},
+        }, {
             "pkg": KV, "funcs": ["VerifC16WriteDuringMerge"],
             "params": {"quick": {"N": 2}, "thorough": {"N": 4}},
             "max_paths": {"quick": 60000, "thorough": 400000},
@@ -267,6 +281,8 @@ CHECKS = {
         }],
         "assumptions": [
             "clause (c) legacy channel API: the real events.EventEmitter (Emit, Subscribe, handleSubscriber with its two buffering goroutines, real container/list, sync.Cond) over the stub bus; N events (N > channel capacity 16); every interleaving of emitter, the two goroutines and the subscriber with at most P preemptions (switch or stall) at visible operations; plus a subscriber that stalls until everything else is blocked and then drains N events",
+            "clause (c) a subscriber that goes away (VerifC16LegacyCancel): two subscribers, one never reads and its context ends before the first / half-way / after the last of N=18 emissions while the other keeps reading; quick tier: default schedule with EVERY choice among ready select cases explored (Go picks at random); thorough: every schedule with one preemption; the stub bus mirrors libp2p's wildcard subscriptions (Close unlinks under the bus write lock, does not drain)",
+            "clause (c) several subscribers (VerifC16LegacyMulti): two Subscribe channels, a third cancelled half-way and the shared GlobalChannel, with prompt / stalled / quitting readers; each reader that keeps reading receives the N events in order exactly once; cancelled and unsubscribed channels close and no buffering goroutine is left",
             "clause (a) under concurrency: a key-value store (its view is a separate map, not an alias of the log) replicates a batch of N remote entries through the real Sync path while a local Put starts at ANY visible operation (lock, unlock, channel operation, go, cache/block write) of any goroutine involved and runs until it blocks; the bus hook queries the store with Get on every EventWrite / EventReplicated",
             "clause (a) state-before-event: every emission on the store's bus is observed synchronously in the emitting goroutine (a wrapper around the bus); on EventWrite the log and the view already hold the entry and there is exactly one write event per successful write; on EventReplicated all announced entries are in the log and the merged heads are already persisted",
             "slow reader of replicated events: every emitted EventReplicated is retained and read only at the end of the history; it must still announce exactly the batch it announced when emitted, and every merged remote entry is announced by exactly one event",
@@ -285,7 +301,7 @@ CHECKS = {
             "params": {"quick": {"STEPS": 3}, "thorough": {"STEPS": 5}},
             "max_paths": {"quick": 60000, "thorough": 600000},
             "timeout": {"quick": "10m", "thorough": "60m"},
-            "covers": {"VerifC01Log": ["converged", "partial-load"]},
+            "covers": {"VerifC01Log": ["converged", "partial-load", "load-more-from"]},
         }, {
             "pkg": DOC, "funcs": ["VerifC01Docs"],
             "params": {"quick": {"STEPS": 2}, "thorough": {"STEPS": 3}},
@@ -294,7 +310,7 @@ CHECKS = {
             "covers": {"VerifC01Docs": ["converged", "partial-load", "put-batch"]},
         }],
         "assumptions": [
-            "two writers (real stores built by InitBaseStore over a shared block store) produce a history of STEPS steps, each a local write with symbolic key/value or a real head exchange (Sync -> replicator -> ipfs-log fetcher -> Join) in either direction, in any order; then both exchange heads and a fresh replica receives everything by one of five routes: manual sync in one batch, load from the writer's disk (cache heads + blocks, real Load), a snapshot saved by the writer (real SaveSnapshot / LoadFromSnapshot), the two writers' branches in separate batches followed by a restart from its own disk, or a PARTIAL load from disk (Load with a limit k, k any value below the log length) completed by the heads a lagging peer would announce (entries below the loaded window, so the log's heads do not move)",
+            "two writers (real stores built by InitBaseStore over a shared block store) produce a history of STEPS steps, each a local write with symbolic key/value or a real head exchange (Sync -> replicator -> ipfs-log fetcher -> Join) in either direction, in any order; then both exchange heads and a fresh replica receives everything by one of five routes: manual sync in one batch, load from the writer's disk (cache heads + blocks, real Load), a snapshot saved by the writer (real SaveSnapshot / LoadFromSnapshot), the two writers' branches in separate batches followed by a restart from its own disk, or a PARTIAL load from disk (Load with a limit k, k any value below the log length) completed by the heads a lagging peer would announce, handed over by Sync or by LoadMoreFrom (entries below the loaded window, so the log's heads do not move)",
             "the real ipfs-log Append/Join/traverse/sorting run in the interpreter; IPFS is a content-addressed block store stub with perfect hashing; identities use perfect symbolic signatures",
             "oracle: identical ordered hash lists and identical views on all three replicas; the view equals the replay of the replica's own log",
             "distinct entries never share (Lamport time, writer key): holds by construction (each identity writes through one live store)",
@@ -336,19 +352,19 @@ CHECKS = {
     },
     "C20": {
         "groups": [{
-            "cross_solvers": ["cvc5", "z3-new"], "pkg": PSC, "funcs": ["VerifC20PeersDiff", "VerifC20SelfFilter"],
+            "cross_solvers": ["cvc5", "z3-new"], "pkg": PSC, "funcs": ["VerifC20PeersDiff", "VerifC20SelfFilter", "VerifC20WatchPeers"],
             "params": {"quick": {"P": 3, "S": 3, "M": 3}, "thorough": {"P": 3, "S": 4, "M": 5}},
             "max_paths": {"quick": 60000, "thorough": 400000},
-            "covers": {"VerifC20PeersDiff": ["diffed"], "VerifC20SelfFilter": ["drained"]},
+            "covers": {"VerifC20PeersDiff": ["diffed"], "VerifC20SelfFilter": ["drained"], "VerifC20WatchPeers": ["watched"]},
         }, {
             "pkg": OOO, "funcs": ["VerifC20ChannelID", "VerifC20Monitor", "VerifC20ConnectRace", "VerifC20Reconnect"],
             "params": {"quick": {"L": 2, "M": 3, "P": 1}, "thorough": {"L": 3, "M": 5, "P": 2}},
             "covers": {"VerifC20ChannelID": ["symmetric", "distinct"], "VerifC20Monitor": ["monitored"], "VerifC20ConnectRace": ["connected"], "VerifC20Reconnect": ["first-context-ended", "reconnected"]},
         }, {
-            "cross_solvers": ["cvc5", "z3-new"], "pkg": DC, "funcs": ["VerifC20FrameRoundTrip", "VerifC12RawFrame"],
+            "cross_solvers": ["cvc5", "z3-new"], "pkg": DC, "funcs": ["VerifC20FrameRoundTrip", "VerifC12RawFrame", "VerifC20Factory"],
             "params": {"quick": {"L": 3, "B": 11}, "thorough": {"L": 6, "B": 12}},
             "flags": {"alloc-bound": 16},
-            "covers": {"VerifC20FrameRoundTrip": ["received"], "VerifC12RawFrame": ["handled"]},
+            "covers": {"VerifC20FrameRoundTrip": ["received"], "VerifC12RawFrame": ["handled"], "VerifC20Factory": ["delivered", "closed"]},
         }, {
             "cross_solvers": ["cvc5", "z3-new"], "pkg": RAW, "funcs": ["VerifC20RawPeers", "VerifC20RawMessages", "VerifC20RawTopics"],
             "params": {"quick": {"E": 3, "P": 2, "M": 3}, "thorough": {"E": 5, "P": 3, "M": 5}},
@@ -364,6 +380,7 @@ CHECKS = {
             "messages: M scripted messages, each from the local peer or a remote one, 1 symbolic byte body; the real WatchMessages / monitorTopic goroutines run in the interpreter",
             "pairwise channel registration: two overlapping Connect calls for the same peer under every schedule with at most P preemptions (the subscribe call is a preemption point); timers run on virtual time (they fire only when nothing else can run)",
             "channel names: peer ids are symbolic strings of length L without '/'; sort.Slice is a stable insertion sort over the real less closure",
+            "polling loop: the real WatchPeers goroutine (one poll per interval on VIRTUAL time) over every sequence of S snapshots of P peers, per-peer transition sequences compared; topic reuse, Publish, Peers; public construction path of the direct channel (InitDirectChannelFactory / NewChannel: stream handler registered under the protocol id, frame through that handler, Close removes the handler and closes the emitter)",
             "subscription lifetime: Connect with a caller's context, that context ends while the channel object lives on, Connect again: 1..2 later payloads of the remote peer are delivered exactly once; Close ends every monitor",
             "frames: payloads of 0..L symbolic bytes through the real Send -> varint -> handleNewPeer path over a byte-pipe stream stub; plus ANY raw stream of 0..B bytes",
             "pubsubraw adapter: the real NewPubSub / TopicSubscribe / WatchPeers / WatchMessages / Publish / Peers over scripted stand-ins for libp2p-pubsub's concrete Topic, TopicEventHandler and Subscription (methods replaced by name; NextPeerEvent / Next return the next scripted item or block until the context ends): every sequence of up to E join/leave events over P peers, every sequence of up to M messages each from the local peer or a remote one with 0..2 symbolic bytes; a violation in this group is reported on the interpreter's execution alone (confirmation: interpreter-only)",
